@@ -107,6 +107,12 @@ pub struct OsslCa {
 }
 
 pub fn openssl_ca(shape: &NameShape, key: &PKey<Private>, with_ski: bool, path_len: Option<u32>) -> Option<OsslCa> {
+	openssl_ca_signed_by(shape, key, with_ski, path_len, None)
+}
+
+/// the same CA certificate, signed by `signer` (key, digest) instead of its own key: an
+/// intermediate whose issuer uses whatever algorithm it likes
+pub fn openssl_ca_signed_by(shape: &NameShape, key: &PKey<Private>, with_ski: bool, path_len: Option<u32>, signer: Option<(&PKey<Private>, MessageDigest)>) -> Option<OsslCa> {
 	let mut nb = X509NameBuilder::new().ok()?;
 	for (f, v, t) in &shape.0 {
 		nb.append_entry_by_text_with_type(f, v, *t).ok()?;
@@ -135,8 +141,18 @@ pub fn openssl_ca(shape: &NameShape, key: &PKey<Private>, with_ski: bool, path_l
 		let ski = SubjectKeyIdentifier::new().build(&b.x509v3_context(None, None)).ok()?;
 		b.append_extension(ski).ok()?;
 	}
-	let md = if key.id() == openssl::pkey::Id::ED25519 { MessageDigest::null() } else { MessageDigest::sha256() };
-	b.sign(key, md).ok()?;
+	match signer {
+		None => {
+			let md = if key.id() == openssl::pkey::Id::ED25519 { MessageDigest::null() } else { MessageDigest::sha256() };
+			b.sign(key, md).ok()?;
+		},
+		Some((k, md)) => {
+			let mut ib = X509NameBuilder::new().ok()?;
+			ib.append_entry_by_text("CN", "the issuer of this intermediate").ok()?;
+			b.set_issuer_name(&ib.build()).ok()?;
+			b.sign(k, md).ok()?;
+		},
+	}
 	let cert = b.build();
 	Some(OsslCa { der: cert.to_der().ok()?, key_pkcs8: key.private_key_to_pkcs8().ok()?, shape: format!("{:?}", shape.0.iter().map(|x| (x.0, x.1)).collect::<Vec<_>>()) })
 }
@@ -253,6 +269,42 @@ fn chain_case(s: &mut Suite, what: &str, ca_der: &[u8], issuer_params: Certifica
 	// end entity left at the default name) — issuer name and authority key identifier are the
 	// issuer's whatever the subject is (the path validators are not asked: they have rules of
 	// their own for certificates that look self-issued or are CAs at the end of a path)
+	// a leaf that expires after 2049, to the nanosecond
+	{
+		let mut q = lp.clone();
+		q.na = Dt { y: 2055, mo: 3, d: 4, h: 5, mi: 6, s: 7, ns: 890_000_000, off: 3600 };
+		q.nb = Dt { y: 2021, mo: 1, d: 1, h: 0, mi: 0, s: 0, ns: 5, off: 0 };
+		if let Some(rq) = q.real() {
+			if let Ok(leaf) = std::panic::catch_unwind(std::panic::AssertUnwindSafe(|| rq.signed_by(&*leaf_key, &issuer, ca_key))) {
+				chain_checks(s, &format!("{} leaf valid beyond 2049 with sub-second parts", line), ca_der, tag, oracles, leaf);
+			}
+		}
+	}
+	// an intermediate CA made from a *request* (parsed, CA flag set by the issuer), and the
+	// Certificate object that issuance returns used as the issuer of a leaf as it stands
+	{
+		let ikey = s.ctx.key("ecdsaP384");
+		let mut ip = PCert::empty();
+		ip.dn = Dn(vec![(DnT::Cn, DnV::Utf8("intermediate from a request".into()))]);
+		if let Some(Ok(csr)) = ip.real().map(|r| r.serialize_request(&*ikey)) {
+			for kid in [KeyIdMethod::Sha256, KeyIdMethod::Sha384] {
+				if let Ok(mut parsed) = CertificateSigningRequestParams::from_der(csr.der()) {
+					parsed.params.is_ca = IsCa::Ca(BasicConstraints::Unconstrained);
+					parsed.params.use_authority_key_identifier_extension = true;
+					parsed.params.serial_number = Some(SerialNumber::from_slice(&[0x35]));
+					parsed.params.not_before = lp.nb.real().unwrap();
+					parsed.params.not_after = lp.na.real().unwrap();
+					parsed.params.key_identifier_method = kid;
+					let Ok(Ok(interm)) = std::panic::catch_unwind(std::panic::AssertUnwindSafe(|| parsed.signed_by(&issuer, ca_key))) else { continue };
+					let leaf = std::panic::catch_unwind(std::panic::AssertUnwindSafe(|| lp.real().unwrap().signed_by(&*leaf_key, &interm, &*ikey)));
+					if let Ok(leaf) = leaf {
+						s.rep.count("leaves_under_an_intermediate_made_from_a_request");
+						chain_checks(s, &format!("{} leaf under an intermediate issued from a request (the returned Certificate as issuer)", line), &interm.der().to_vec(), tag, false, leaf);
+					}
+				}
+			}
+		}
+	}
 	let issuer_name = dn_of_real(&issuer.params().distinguished_name);
 	for (shape, ca, same_name) in [("explicit-no-ca", Ca::ExplicitNo, false), ("intermediate", Ca::Ca(Some(0)), false), ("bears-the-issuer's-name", Ca::No, true), ("intermediate-bearing-the-issuer's-name", Ca::Ca(None), true)] {
 		let mut q = lp.clone();
@@ -444,7 +496,16 @@ pub fn run(ctx: &mut Ctx, prop: &str) -> Report {
 			p.nc = None;
 			p.eku = vec![];
 			p.custom = vec![];
-			p.ku = if s.rng.chance(1, 2) { vec![] } else { vec![KeyUsagePurpose::KeyCertSign, KeyUsagePurpose::CrlSign, KeyUsagePurpose::DigitalSignature] };
+			p.ku = match s.rng.below(4) {
+				0 | 1 => vec![],
+				2 => vec![KeyUsagePurpose::KeyCertSign, KeyUsagePurpose::CrlSign, KeyUsagePurpose::DigitalSignature],
+				// (a list is a list: a usage named twice, as it happens when one is pushed onto a copied list)
+				_ => vec![KeyUsagePurpose::KeyCertSign, KeyUsagePurpose::CrlSign, KeyUsagePurpose::KeyCertSign, KeyUsagePurpose::DigitalSignature, KeyUsagePurpose::CrlSign],
+			};
+			// a CA that outlives 2049, to the nanosecond
+			if s.rng.chance(1, 3) {
+				p.na = Dt { y: 2060, mo: 6, d: 1, h: 12, mi: 30, s: 15, ns: 123_456_789, off: 0 };
+			}
 		}
 		gens.push(p);
 	}
@@ -666,6 +727,45 @@ pub fn run(ctx: &mut Ctx, prop: &str) -> Report {
 				}
 			}
 		}
+	}
+	// --- OpenSSL-made *intermediates*: the same CA certificate signed by another party's key
+	// with algorithms of that party's choosing (P-521 / SHA-512, RSA / SHA-1, RSA / SHA-224, SHA-3) —
+	// the signature on a CA certificate is its issuer's business; what is imported is the same
+	{
+		let shape = &name_shapes()[0];
+		let ca_key = &ossl_keys[0].0;
+		let own = openssl_ca(shape, ca_key, true, None).and_then(|c| std::panic::catch_unwind(|| import_real(&c.der)).ok().and_then(|r| r.ok()));
+		let mut issuers: Vec<(&str, PKey<Private>, MessageDigest)> = Vec::new();
+		if let Ok(g) = openssl::ec::EcGroup::from_curve_name(openssl::nid::Nid::SECP521R1) {
+			if let Ok(k) = openssl::ec::EcKey::generate(&g).and_then(PKey::from_ec_key) {
+				issuers.push(("p521-sha512", k.clone(), MessageDigest::sha512()));
+				issuers.push(("p521-sha256", k, MessageDigest::sha256()));
+			}
+		}
+		if let Ok(k) = PKey::private_key_from_pkcs8(&s.ctx.rsa_fixture) {
+			issuers.push(("rsa-sha1", k.clone(), MessageDigest::sha1()));
+			issuers.push(("rsa-sha224", k.clone(), MessageDigest::sha224()));
+			issuers.push(("rsa-sha3-256", k.clone(), MessageDigest::sha3_256()));
+			issuers.push(("rsa-sha512", k, MessageDigest::sha512()));
+		}
+		for (iname, ik, md) in &issuers {
+			let Some(ca) = openssl_ca_signed_by(shape, ca_key, true, None, Some((ik, *md))) else {
+				s.rep.count("openssl_intermediate_build_failed");
+				continue;
+			};
+			let imported = import_case(&mut s, "openssl-intermediate", &ca.der, None);
+			s.rep.count(&format!("openssl_intermediate:{}", iname));
+			if let (Some(o), true) = (&own, imported.is_none() || imported.as_ref() != own.as_ref()) {
+				let _ = o;
+				s.rep.violate(&format!("{}:import-of-an-intermediate:{}", prop, iname), "a CA certificate signed by another party's key imports differently from (or unlike) the same certificate signed by its own key: the issuer's signature algorithm is not the CA's", format!("issuer algorithm {}\ncertificate: {}\nimported: {}", iname, hex(&ca.der), imported.as_ref().map(|p| PCert::of_real(p).sexp()).unwrap_or("refused".into())));
+			}
+			if let (Some(ip), true) = (imported, prop == "C03") {
+				if let Ok(kp) = KeyPair::try_from(ca.key_pkcs8.as_slice()) {
+					chain_case(&mut s, &format!("openssl-intermediate-imported issuer-alg={}", iname), &ca.der, ip, &kp, Kid::Sha256, "imported-openssl-intermediate", false);
+				}
+			}
+		}
+		s.rep.exhaustive.push("OpenSSL-made intermediate CA certificates signed by another party under 6 algorithm pairings (P-521 / SHA-512 and SHA-256, RSA with SHA-1 / SHA-224 / SHA3-256 / SHA-512): imported like the self-signed one".into());
 	}
 	// --- hand-built CAs: multi-valued RDNs
 	for (shape, der, pkcs8) in handmade_cas() {
